@@ -109,6 +109,7 @@ struct FifoSpec {
             return q.empty();
         case SIZE: return long( q.size()) == o.res;
         case EMPTY: return ( q.empty() ? 1 : 0 ) == o.res;
+        case CLEAR: q.clear(); return true;
         }
         return false;
     }
@@ -126,6 +127,7 @@ struct LifoSpec {
             return s.empty();
         case EMPTY: return ( s.empty() ? 1 : 0 ) == o.res;
         case SIZE: return long( s.size()) == o.res;
+        case CLEAR: s.clear(); return true;
         }
         return false;
     }
@@ -147,6 +149,7 @@ struct DequeSpec {
             return d.empty();
         case EMPTY: return ( d.empty() ? 1 : 0 ) == o.res;
         case SIZE: return long( d.size()) == o.res;
+        case CLEAR: d.clear(); return true;
         }
         return false;
     }
@@ -175,6 +178,7 @@ struct PQSpec {
             return s.empty();
         case EMPTY: return ( s.empty() ? 1 : 0 ) == o.res;
         case SIZE: return long( s.size()) == o.res;
+        case CLEAR: s.clear(); return true;
         }
         return false;
     }
